@@ -79,6 +79,9 @@ pub struct Mask {
 	pub method: MethodInterests,
 	pub code: CodeFlags,
 	pub rc: RecordComponentInterests,
+	/// the interests the visitors of the members with an even ordinal report instead (field, method, code, rc levels): the API lets
+	/// a class visitor hand out differently configured member visitors
+	pub alt: Option<Box<Mask>>,
 }
 
 fn flag(v: &Value, lvl: &str, name: &str) -> Result<bool> {
@@ -100,12 +103,25 @@ impl Mask {
 			code: CodeFlags { stack_map_table: true, line_number_table: true, local_variable_table: true, local_variable_type_table: true,
 				runtime_visible_type_annotations: true, runtime_invisible_type_annotations: true, unknown_attributes: true },
 			rc: RecordComponentInterests::all(),
+			alt: None,
 		}
+	}
+
+	/// the mask the visitor of member number `mi` (1-based) reports
+	pub fn for_member(&self, mi: usize) -> &Mask {
+		match &self.alt { Some(a) if mi % 2 == 0 => a, _ => self }
 	}
 
 	/// Either every flag of every level as `v[level][flag]` (a missing flag is an error, nothing is defaulted), or
 	/// the compact form `{"base": "all"|"none", "flip": [[level, flag]..]}` (the base mask with the listed flags inverted).
 	pub fn from_json(v: &Value) -> Result<Mask> {
+		if let Some(alt) = v.get("alt").filter(|a| a.get("base").is_some() || a.get("class").is_some()) {
+			let mut rest = v.clone();
+			if let Some(o) = rest.as_object_mut() { o.remove("alt"); }
+			let mut m = Mask::from_json(&rest)?;
+			m.alt = Some(Box::new(Mask::from_json(alt)?));
+			return Ok(m);
+		}
 		if let Some(base) = v.get("base").and_then(Value::as_str) {
 			let b = match base { "all" => true, "none" => false, _ => return Err(anyhow!("mask.base must be all or none")) };
 			let mut full = mask_json(b);
@@ -138,6 +154,7 @@ impl Mask {
 				local_variable_type_table, runtime_visible_type_annotations, runtime_invisible_type_annotations, unknown_attributes]),
 			rc: read_flags!(RecordComponentInterests::none(), v, "rc", [signature, runtime_visible_annotations,
 				runtime_invisible_annotations, runtime_visible_type_annotations, runtime_invisible_type_annotations, unknown_attributes]),
+			alt: None,
 		})
 	}
 }
@@ -575,7 +592,7 @@ impl FieldVisitor for Recording<Field> {
 	type UnknownAttribute = Attribute;
 
 	fn interests(&self) -> FieldInterests {
-		self.sh.mask.field
+		self.sh.mask.for_member(self.mi).field
 	}
 
 	dep_syn_method!("field", FieldVisitor, Field);
@@ -593,7 +610,7 @@ impl RecordComponentVisitor for Recording<RecordComponent> {
 	type UnknownAttribute = Attribute;
 
 	fn interests(&self) -> RecordComponentInterests {
-		self.sh.mask.rc
+		self.sh.mask.for_member(self.mi).rc
 	}
 
 	simple_event!("rc", RecordComponentVisitor, RecordComponent, visit_signature, signature: FieldSignature);
@@ -612,7 +629,7 @@ impl MethodVisitor for Recording<Method> {
 	type UnknownAttribute = Attribute;
 
 	fn interests(&self) -> MethodInterests {
-		self.sh.mask.method
+		self.sh.mask.for_member(self.mi).method
 	}
 
 	dep_syn_method!("method", MethodVisitor, Method);
@@ -691,7 +708,7 @@ impl CodeVisitor for RecCode {
 	type UnknownAttribute = Attribute;
 
 	fn interests(&self) -> CodeInterests {
-		let f = self.sh.mask.code;
+		let f = self.sh.mask.for_member(self.mi).code;
 		CodeInterests {
 			stack_map_table: f.stack_map_table,
 			line_number_table: f.line_number_table,
